@@ -27,6 +27,8 @@ pub fn exec_case(line: &str) -> Option<Vec<u64>> {
         "PMT" => { let b = unhex(toks[1]); guarded(move || tobs::run_pmt(&b)) }
         "SEC" => { let f: u64 = toks[1].parse().unwrap(); let p: Vec<Vec<u8>> = toks[2..].iter().map(|t| unhex(t)).collect(); guarded(move || app::run_sec(f, &p)) }
         "ALLOC" => { let w = unhex(toks[1]); let s = unhex(toks[2]); guarded(move || crate::quiet::run_alloc(&w, &s)) }
+        "SECA" => { let c: u64 = toks[1].parse().unwrap(); let nw: usize = toks[2].parse().unwrap(); let p: Vec<Vec<u8>> = toks[3..].iter().map(|t| unhex(t)).collect();
+                    guarded(move || crate::quiet::run_seca(c & 1 != 0, &p[..nw], &p[nw..])) }
         "MEM" => { let b = unhex(toks[1]); guarded(move || crate::quiet::run_mem(&b)) }
         "PESF" => { let f: u64 = toks[1].parse().unwrap(); let p: Vec<Vec<u8>> = toks[2..].iter().map(|t| unhex(t)).collect(); guarded(move || app::run_pesf(f, &p)) }
         "DMX" => { let f: u64 = toks[1].parse().unwrap(); let s = app::parse_scripts(toks[2]); let p: Vec<Vec<u8>> = toks[3..].iter().map(|t| unhex(t)).collect();
